@@ -3,7 +3,7 @@ socket, followed by the capacity probe: N-1 connections held open and idle (each
 worker in `read`), and an N-th valid request that must still be answered.
 Connection kinds: valid request, every known fault-provoking request (regression corpus of the
 C04 findings), early close, reset (RST) before sending, bursts of connections reset while still in the listen queue (server stopped with SIGSTOP meanwhile), reset right after sending, half-sent
-request then close, oversized request.  Oracle on the implementation alone: the server process is
+request then close, an upload cut short inside its announced body (then FIN or close), oversized request.  Oracle on the implementation alone: the server process is
 alive after the history, valid requests in the history are answered, and the probe is answered."""
 import os, socket, struct, time, tempfile, shutil, threading
 from vlib import common as C, realbin as RB
@@ -17,7 +17,7 @@ FAULTY = [b'GET x HTTP/1.1\r\n\r\n', b'GET * HTTP/1.1\r\n\r\n', b'GET http://a/b
           b'POST /form-multipart-enctype-post-method HTTP/1.1\r\nContent-Type: multipart/form-data; boundary=B\r\n\r\n' + b'--B\r\nContent-Disposition: form-data; name="a"\r\n\r\n\r\n' * 150 + b'--B--\r\n',
           b'\xff\xfe\x00', b'', b'GET /../../etc/passwd HTTP/1.1\r\n\r\n', b'OPTIONS * HTTP/1.1\r\n\r\n',
           b'GET /f.txt HTTP/1.1\r\nRange: bytes=18446744073709551615-\r\n\r\n', b'HEAD /f.txt HTTP/9.9\r\n\r\n']
-KINDS = ['valid', 'faulty', 'early-close', 'rst-before', 'rst-after', 'half-sent', 'oversized', 'oversized-malformed', 'rst-before-accept']
+KINDS = ['valid', 'faulty', 'early-close', 'rst-before', 'rst-after', 'half-sent', 'oversized', 'oversized-malformed', 'rst-before-accept', 'body-cut-short']
 
 def _conn(port, timeout=5):
     s = socket.create_connection(('127.0.0.1', port), timeout=timeout)
@@ -56,6 +56,15 @@ def one(server, kind, rng):
         elif kind == 'rst-before': _rst(s)
         elif kind == 'rst-after': s.sendall(VALID); _rst(s)
         elif kind == 'half-sent': s.sendall(b'GET /f.t'); s.close()
+        elif kind == 'body-cut-short':
+            # an upload that ends before the body it announced: complete head, Content-Length larger than what follows, then FIN (or close)
+            n = rng.choice([50, 500, 5000])
+            s.sendall(b'POST /form-url-encoded-enctype-post-method HTTP/1.1\r\nHost: x\r\nContent-Type: application/x-www-form-urlencoded\r\nContent-Length: %d\r\n\r\n' % n + b'a=1&b=' + b'x' * rng.choice([0, 3, 20]))
+            try:
+                if rng.chance(1, 2):
+                    s.shutdown(socket.SHUT_WR); s.settimeout(2); s.recv(65536)
+            except OSError: pass
+            s.close()
         elif kind == 'oversized-malformed':
             # an unparsable request that fills the request buffer, a little more, then an orderly close (FIN)
             try:
@@ -99,6 +108,7 @@ def run_part(res, rng, tier):
             hist = [rng.choice(KINDS) if rng.chance(3, 4) else 'faulty' for _ in range(length)]
             if rng.chance(1, 3): hist += ['faulty'] * n            # a burst of N fault-provoking connections at the end
             if h < 3: n = (1, 2, 4)[h]; hist = ['valid'] + ['rst-before-accept'] * 4 + hist[:10] + ['valid']   # several hundred connections reset in the listen queue
+            if 3 <= h < 5: n = (1, 3)[h - 3]; hist = ['valid'] + ['body-cut-short'] * (n + 1) + hist[:8] + ['valid']   # more cut-short uploads than workers
             with RB.Server(base, threads=n, capture_stdout=False) as srv:
                 unanswered = []
                 for k in hist:
